@@ -170,6 +170,12 @@ func (g *gen) tree(s *Schema, depth int) any {
 		}
 
 		return r
+	case "eptr":
+		if g.r.Intn(8) == 0 {
+			return map[string]any{"some": false}
+		}
+
+		return map[string]any{"some": true, "v": g.tree(s.T, depth+1)}
 	case "opt":
 		if g.r.Intn(3) == 0 {
 			return map[string]any{"some": false}
@@ -359,6 +365,40 @@ func decRecord(e *entry, s *Schema, b []byte, mode int, src string) map[string]a
 	return rec
 }
 
+// encRecord: Encode of the value built from tree, twice-encode under shuffled insertion order, round trip.
+// Returns the record and the encoding (nil if Encode failed).
+func encRecord(e *entry, s *Schema, tree any, mode int, ptr bool, rng *rand.Rand) (map[string]any, []byte, error) {
+	gv, err := toGo(s, tree, e.typ)
+	if err != nil {
+		return nil, nil, err
+	}
+	enc := encodeReal(gv, mode, ptr)
+	rec := map[string]any{"k": "enc", "s": e.name, "m": mode, "v": tree, "ok": enc.Ok, "b": ints(enc.B), "panic": enc.Panic != ""}
+	if !enc.Ok {
+		return rec, nil, nil
+	}
+	// C01: same bytes when the value is built again in another insertion order
+	same := true
+	for k := 0; k < 2; k++ {
+		gv2, err := toGo(s, shuffle(s, tree, rng), e.typ)
+		if err != nil {
+			return nil, nil, err
+		}
+		if e2 := encodeReal(gv2, mode, true); !e2.Ok || !bytes.Equal(e2.B, enc.B) {
+			same = false
+		}
+	}
+	rec["same"] = same
+	rt := decodeReal(e, s, enc.B, mode)
+	rtj := map[string]any{"ok": rt.Ok, "n": rt.N, "panic": rt.Panic != ""}
+	if rt.Ok {
+		rtj["v"] = rt.V
+	}
+	rec["rt"] = rtj
+
+	return rec, enc.B, nil
+}
+
 func cmdRecord(args []string) int {
 	fs := flag.NewFlagSet("w1-record", flag.ExitOnError)
 	catPath := fs.String("cat", "", "")
@@ -385,38 +425,16 @@ func cmdRecord(args []string) int {
 		e, s := entries[name], cat[name]
 		hangRow = fmt.Sprintf("record %d %s", i, name)
 		tree := g.arrange(s, g.tree(s, 0), e.typ)
-		gv, err := toGo(s, tree, e.typ)
+		rec, encB, err := encRecord(e, s, tree, g.r.Intn(2), g.r.Intn(2) == 0, g.r)
 		if err != nil {
 			fmt.Fprintf(os.Stderr, "generator built an unusable %s: %v\n", name, err)
 			return 2
 		}
-		mode := g.r.Intn(2)
-		enc := encodeReal(gv, mode, g.r.Intn(2) == 0)
-		rec := map[string]any{"k": "enc", "s": name, "m": mode, "v": tree, "ok": enc.Ok, "b": ints(enc.B), "panic": enc.Panic != ""}
-		if !enc.Ok {
-			sink.put(rec)
+		sink.put(rec)
+		if encB == nil {
 			continue
 		}
-		// C01: same bytes when the value is built again in another insertion order
-		same := true
-		for k := 0; k < 2; k++ {
-			gv2, err := toGo(s, shuffle(s, tree, g.r), e.typ)
-			if err != nil {
-				fmt.Fprintln(os.Stderr, err)
-				return 2
-			}
-			if e2 := encodeReal(gv2, mode, true); !e2.Ok || !bytes.Equal(e2.B, enc.B) {
-				same = false
-			}
-		}
-		rec["same"] = same
-		rt := decodeReal(e, s, enc.B, mode)
-		rtj := map[string]any{"ok": rt.Ok, "n": rt.N, "panic": rt.Panic != ""}
-		if rt.Ok {
-			rtj["v"] = rt.V
-		}
-		rec["rt"] = rtj
-		sink.put(rec)
+		enc := encObs{Ok: true, B: encB}
 		// hostile variants of the encoding
 		for k := 0; k < 4; k++ {
 			if allocBad[name] >= 4 {
